@@ -19,6 +19,8 @@ mod common;
 pub mod config;
 mod workers;
 #[cfg(aquatic_verif)]
+pub use workers::socket::verif_request;
+#[cfg(aquatic_verif)]
 pub use workers::swarm::verif_storage;
 
 pub const APP_NAME: &str = "aquatic_http: HTTP BitTorrent tracker";
